@@ -258,6 +258,15 @@ Section Ledger.
 
   Definition plugged_sids (ops : list op) : list Z :=
     flat_map (fun o => match o with Plugin _ sid _ => [sid] | _ => [] end) ops.
+  Definition plugged_batts (ops : list op) : list B :=
+    flat_map (fun o => match o with Plugin _ _ b => [b] | _ => [] end) ops.
+
+  (* energy [kWh] recorded in one column: sum over stations of rate * V / 1000 * (T / 60) *)
+  Fixpoint column_energy (T : F) (net : list stn) (col : list F) : F :=
+    match net, col with
+    | s :: net', r :: col' => oadd O (energy_of T (s_volt s) r) (column_energy T net' col')
+    | _, _ => o0 O
+    end.
 
   Definition n_steps (ops : list op) : nat :=
     length (filter (fun o => match o with Step _ _ => true | _ => false end) ops).
